@@ -10,6 +10,7 @@ RULE = ('C04 workloads with n well above the buffer (up to 5*buffer+7), consumer
         'next() returning to the consumer). Non-trivial: the run reached pulled - handed >= buffer_size; distinct '
         'by (workload, thread sequence hash).')
 ASSUMPTIONS = [
+    'real pools: the marker log is appended with O_APPEND by workers and consumer; it can only under-report read-ahead',
     'on the single-thread path the mapped function runs inside the pulled source, so only the pull bound applies',
     'with catch_filter_exception the workloads contain no failing example, so handed == consumed',
 ]
@@ -35,5 +36,12 @@ def nontrivial(case, tr):
 replay = SC.replay_with(judge)
 
 
+POOL_RUNS = {'quick': 10, 'thorough': 150}
+
+
 def run_shard(tier, idx, nshards, rec, known):
-    return [SC.run_profile('readahead', judge, nontrivial, rec, known, N[tier], seed() * 1000 + idx)]
+    outs = [SC.run_profile('readahead', judge, nontrivial, rec, known, N[tier], seed() * 1000 + idx)]
+    if idx == 0 and not outs[0].violation:
+        # part "pools": started - handed <= buffer_size over the append-only marker log of the five real backends
+        outs.append(SC.run_pools('readahead', rec, known, POOL_RUNS[tier], seed() * 1000 + 999))
+    return outs
